@@ -15,7 +15,7 @@ import _c18_lib as L
 
 STUB_DIR = Path(__file__).resolve().parents[2] / "corpus" / "C18" / "stub"
 BOOM = ["ValueError", "KeyError", "ZeroDivisionError", "StubError", "_HiddenError", "InvalidOperation",
-        "JSONDecodeError", "SystemExit", "GeneratorExit", "StubAbort", "SystemExit", "KeyboardInterrupt"]
+        "JSONDecodeError", "SystemExit", "GeneratorExit", "StubAbort", "SystemExit", "KeyboardInterrupt", "BoxFull", "BoxFull"]
 
 
 def alias_of(module: str) -> str:
@@ -112,7 +112,7 @@ def gen_test(rng, module: str, n: int | None = None):
                 # whole session, so the unexpected (xfail) variant cannot be batched (see notes/C18.md)
                 s["expected"] = [kind]
             elif rng.random() < 0.4:
-                s["expected"] = [kind] + (["TypeError"] if rng.random() < 0.3 else [])
+                s["expected"] = ["Full" if kind == "BoxFull" else kind] + (["TypeError"] if rng.random() < 0.3 else [])
             elif rng.random() < 0.2:
                 s["expected"] = ["OSError"]
             menu, raising = [["Exc", "x", kind]], True
@@ -249,6 +249,11 @@ class _Suite:
         self.test_case_chromosomes = [_Ind(t) for t in ts]
 
 
+def exc_root_name(e) -> str:
+    q = e.__qualname__
+    return e.__name__ if "<locals>" in q else q.split(".")[0]
+
+
 def independent_exceptions(t, module):
     """What each statement raises when the test case is executed statement by statement (own execution,
     independent of the writer's re-execution): the exception type or None, for every BaseException."""
@@ -352,8 +357,10 @@ def write_suite(spec, outdir, testcases=None):
             acc = st.accessible
             row.append({
                 "id": i, "code": code, "uses": sorted(uses), "binds": sorted(binds),
-                "exc": None if e is None else (e.__name__, None if e.__module__ == "builtins" else e.__module__,
+                # the name a wrapper needs bound: the outermost owner for a class nested in a class
+                "exc": None if e is None else (exc_root_name(e), None if e.__module__ == "builtins" else e.__module__,
                                                not issubclass(e, Exception)),
+                "exc_class": None if e is None else e.__name__,
                 "exc_writer": None if we is None else we.__name__,
                 "expected": bool(e is not None and isinstance(acc, GenericCallableAccessibleObject)
                                  and e.__name__ in acc.expected_exceptions),
@@ -550,4 +557,8 @@ def c_case(spec, canonical, publics, abstract_in, tops, ofuncs) -> str:
 def public_names(module: str) -> list[str]:
     _setup_paths()
     mod = importlib.import_module(module)
-    return sorted(n for n in dir(mod) if not n.startswith("_") and n != alias_of(module))
+    def collected(n):   # what pytest's default rules would collect from the test module's namespace
+        o = getattr(mod, n, None)
+        return n.startswith("Test") if isinstance(o, type) else (n.startswith("test") and callable(o))
+
+    return sorted(n for n in dir(mod) if not n.startswith("_") and n != alias_of(module) and not collected(n))
